@@ -129,6 +129,26 @@ def specHolds (env : Env) (e : Expr) (g : CF) : Bool :=
   (indicesC g.mesh.n).all fun i =>
     decide (cellOf g.data i g.nvdim = evalCell env e i) && (g.valid.get i == validCell env e i)
 
+/-- executable statement of `eval_scalar_tree`: for an elementwise tree every entry of the
+result is the tree of scalars at that entry (`none` when the tree is not elementwise) -/
+def scalarHolds (env : Env) (e : Expr) (g : CF) : Option Bool :=
+  if e.elementwise then
+    some ((indicesC g.mesh.n).all fun i =>
+      (List.range g.nvdim).all fun c => decide (g.data.get (i ++ [c]) = scalarAt env e (i ++ [c])))
+  else none
+
+def optBoolJ : Option Bool → Json
+  | none => .null
+  | some b => .bool b
+
+def ufuncFnOfString : String → R (GQ → GQ → GQ)
+  | "uadd" => pure GQ.add | "usub" => pure GQ.sub | "umul" => pure GQ.mul | "udiv" => pure GQ.div
+  | "umax" => pure GQ.maxi | "umin" => pure GQ.mini | "upow" => pure GQ.pow
+  | s => throw s!"bad ufunc {s}"
+
+/-- dtype kind the ufunc's loop produces for two input kinds -/
+def loopKind (fn : String) (a b : Kind) : Kind := if fn == "udiv" then (a.join b).ctor else a.join b
+
 /-- operand of a two-output ufunc call: a leaf field or a non-field operand -/
 def valOfJson (fields : List CF) (j : Json) : R Val := do
   match ← exprOfJson j with
@@ -166,8 +186,8 @@ def c03 (op : String) (j : Json) : Option (R Json) :=
         let inexact := match evalF (mkEnv fields mode 1) e with
           | .ok (.fld g2) => g.data.toList != g2.data.toList
           | _ => true
-        pure (Json.mkObj [("ok", ((cfToJson g).setObjVal! "inexact" (.bool (mode == "exact" && inexact))).setObjVal!
-          "spec" (.bool (specHolds env e g)))])
+        pure (Json.mkObj [("ok", (((cfToJson g).setObjVal! "inexact" (.bool (mode == "exact" && inexact))).setObjVal!
+          "spec" (.bool (specHolds env e g))).setObjVal! "scalar" (optBoolJ (scalarHolds env e g)))])
   | "stack" => some do
       let f ← cfOfJson (← fld j "field")
       pure (resJ cfToJson (stackComps f))
@@ -189,6 +209,47 @@ def c03 (op : String) (j : Json) : Option (R Json) :=
   | "pair1" => some do
       let f ← cfOfJson (← fld j "field")
       pure (resJ (fun (_ : CF × CF) => Json.null) (ufunc1pair f))
+  | "umethod" => some do
+      let fields ← listOf cfOfJson (← fld j "fields")
+      let how ← strOfJson (← fld j "how")
+      let fname ← strOfJson (← fld j "fn")
+      let fn ← ufuncFnOfString fname
+      let l ← valOfJson fields (← fld j "l")
+      match how with
+      | "reduce" | "accumulate" =>
+        let f ← match l with
+          | .fld f => pure f
+          | _ => throw "reduce / accumulate need a field"
+        let ax ← match fldOpt j "axis" with
+          | none | some .null => pure none
+          | some a => do pure (some (← natOfJson a))
+        if how == "reduce" then
+          let keep ← boolOfJson (← fld j "keep")
+          pure (resJ cfToJson (ufuncReduce fn f ax keep))
+        else
+          match ax with
+          | some k => pure (resJ cfToJson (ufuncAccumulate fn f k))
+          | none => throw "accumulate needs an axis"
+      | "outer" =>
+        let r ← valOfJson fields (← fld j "r")
+        match l, r with
+        | .fld f, .fld o => pure (resJ cfToJson (ufuncOuter fn f o))
+        | _, _ => throw "outer needs two fields"
+      | "out" =>
+        let r ← valOfJson fields (← fld j "r")
+        let k ← natOfJson (← fld j "out")
+        match fields[k]? with
+        | none => throw "out index"
+        | some out =>
+          let o := ufunc2out fn (fname == "upow") (loopKind fname) l r out
+          let resj := match o.res with
+            | .error er => errJ er
+            | .ok g => Json.mkObj [("ok", cfToJson g)]
+          let same := match o.res with
+            | .ok g => g.data.toList == o.out.data.toList
+            | .error _ => true
+          pure (Json.mkObj [("ok", Json.mkObj [("res", resj), ("out", cfToJson o.out), ("spec", .bool same)])])
+      | s => throw s!"bad ufunc method {s}"
   | _ => none
 
 end DFV.Drv
